@@ -12,7 +12,7 @@ from . import models, realise, replay, runner, spectab, tlc
 from .universe import CATALOGUE, Universe
 
 U2 = ["U2disj", "U2nest", "U2corner", "U2bite", "U2cross", "U2notch", "U2comb"]
-U3 = ["U3venn", "U3hole", "U3chain"]
+U3 = ["U3venn", "U3hole", "U3chain", "U4nest"]
 POLY = ["poly-frac", "poly-int", "poly-float"]
 CURVED = ["quad-float", "mixdeg-float", "cubic-float"]
 EXTRA = ["poly-mixed", "poly-frac-rot", "quad-frac"]
@@ -66,6 +66,19 @@ def sim_jobs(unames, reals, *, num, depth, seed, opts=None, **kw):
             for rn in reals:
                 jobs.append((un, rn, case, opts or {}))
     return results, jobs
+
+
+def history_sims(rep, rng, quick, *, props, reals=("poly-frac", "poly-float"), c10=False):
+    """histories in which objects are moved far away and back between queries and operators
+    (far-apart frames of ShapeSys): stale position-dependent caches show up as wrong answers"""
+    sims, jobs = sim_jobs(["U2nest", "U2cross"] if quick else ["U2nest", "U2cross", "U2notch", "U3hole"], list(reals),
+                          num=240 if quick else 1200, depth=10, seed=runner.seed() + 21, opts={"check_c10": c10},
+                          acts=("mkreg", "transform", "query", "bin"), gens=("f1", "F1", "r1"), maxframe=4, regs=2, maxobj=5,
+                          constraint="HistDomain", tag="MCSIM_hist")
+    for un, r in sims:
+        rep.add_tlc("ShapeSys-sim-history/" + un, r)
+    res = runner.pool_map(replay.run_case, jobs)
+    rep.add_results("hist", res, props=props)
 
 
 def nontrivial_pair(r):
@@ -140,7 +153,7 @@ def check_C01(tier, rng, rep):
     jobs = []
     o = {"check_c10": False}
     if quick:
-        jobs += pair_jobs(U2, lambda k: [POLY[k % 3]], rng, per_universe=110, opts=o)
+        jobs += pair_jobs(U2, lambda k: [(POLY + ["sim-mm-float"])[k % 4]], rng, per_universe=110, opts=o)
         jobs += pair_jobs(U2, lambda k: [CURVED[k % 3]], rng, per_universe=30, classes=("T",), opts=o)
         jobs += pair_jobs(U3, lambda k: [(POLY + CURVED)[k % 6]], rng, per_universe=120, classes=("T",), opts=o)
     else:
@@ -158,6 +171,7 @@ def check_C01(tier, rng, rep):
         rep.add_tlc("ShapeSys-sim/" + un, r)
     res = runner.pool_map(replay.run_case, jobs)
     rep.add_results("sim", res)
+    history_sims(rep, rng, quick, props={"C01"})
     # (d) code -> spec: recorded random programs validated by TLC
     trace_engine(rep, [rng.choice(U2[2:]), rng.choice(["U3hole", "U3chain"])] if quick else U2[2:] + U3, ["poly-frac", "poly-float"] if quick else POLY + CURVED[:2],
                  ntr=16 if quick else 60, nsteps=10, acts_for_prop={"Bin", "Inv"}, gens=(), maxframe=0)
@@ -239,6 +253,7 @@ def check_C03(tier, rng, rep):
         jobs += query_rows(U3, lambda k: [(POLY + CURVED + EXTRA)[k % 9]], rng, classes=("T", "P"))
     res = runner.pool_map(queries.pairq_case, jobs)
     rep.add_results("pairq", res, nontrivial=lambda r: r["row"]["a"] != r["row"]["b"] and r["row"]["a"] and r["row"]["b"])
+    history_sims(rep, rng, quick, props={"C03"})
     return rep.finish(tier, rule="ordered pairs of pinch-free regions (rows of ShapeSysExport) x realisation; `B in A`, `A in B`, curves of B in A (closed/open), A in A, and the consequences A|B == A, A&B == B; non-trivial = distinct non-empty regions", exhaustive=not quick)
 
 
@@ -274,7 +289,11 @@ def check_C04(tier, rng, rep):
     if quick:
         jobs = region_jobs(U2, lambda k: [(POLY + CURVED)[k % 6], (POLY + CURVED)[(k + 3) % 6]], rng, per_universe=10, pred=proper)
         jobs += region_jobs(U3, lambda k: [(POLY + CURVED)[k % 6]], rng, per_universe=16, pred=proper)
+        for fr in (("s2", "m2"), ("r1", "s1"), ("m1",)):
+            jobs += region_jobs(U2, lambda k: [(POLY + CURVED[:1])[k % 4]], rng, per_universe=3, pred=proper, opts={"frame": fr, "via_api": True})
     else:
+        for fr in (("s2", "m2"), ("r1", "s1"), ("m1",), ("r2", "M2", "S1")):
+            jobs += region_jobs(U2 + U3, lambda k: [(POLY + CURVED)[k % 6]], rng, per_universe=12, pred=proper, opts={"frame": fr, "via_api": True})
         jobs = region_jobs(U2 + U3, POLY + CURVED + EXTRA, rng, pred=proper)
         jobs += region_jobs(U2, ["poly-frac", "quad-float"], rng, pred=proper, opts={"frame": ("s2", "m2")})
     res = runner.pool_map(queries.moments_case, jobs)
@@ -324,18 +343,21 @@ def check_C06(tier, rng, rep):
     o = {"check_c10": False}
     jobs = []
     if quick:
-        jobs += pair_jobs(U2, lambda k: [(POLY + CURVED[:2])[k % 5]], rng, per_universe=70, classes=("T",), opts=o)
-        jobs += pair_jobs(U3, lambda k: [(POLY + CURVED[:2])[k % 5]], rng, per_universe=70, classes=("T",), opts=o)
+        rl = POLY + CURVED[:2] + ["sim-mm-float", "sim-mm-frac"]
+        jobs += pair_jobs(U2, lambda k: [rl[k % 7]], rng, per_universe=70, classes=("T",), opts=o)
+        jobs += pair_jobs(U3, lambda k: [rl[k % 7]], rng, per_universe=70, classes=("T",), opts=o)
     else:
-        jobs += pair_jobs(U2, POLY + CURVED + EXTRA, rng, classes=("T",), opts=o)
-        jobs += pair_jobs(U3, lambda k: [(POLY + CURVED + EXTRA)[k % 9]], rng, classes=("T",), opts=o)
+        jobs += pair_jobs(U2, POLY + CURVED + EXTRA + ["sim-mm-float", "sim-mm-frac"], rng, classes=("T",), opts=o)
+        jobs += pair_jobs(U3, lambda k: [(POLY + CURVED + EXTRA + ["sim-mm-float", "sim-mm-frac"])[k % 11]], rng, classes=("T",), opts=o)
     for un in U2 + U3:
         rows = singleton_rows(un)
         for k, row in enumerate(runner.sample(rows, 12 if quick else len(rows), rng)):
             for rn in ([(POLY + CURVED[:1])[k % 4]] if quick else POLY + CURVED):
                 jobs.append((un, rn, replay.pair_case(Universe(un), row), o))
     res = runner.pool_map(replay.run_case, jobs)
-    rep.add_results("pairs", res, nontrivial=nontrivial_pair)
+    # a result that does not even denote the expected region is not the canonical, well-formed
+    # shape of that region either (wrong grouping of curves into components and holes)
+    rep.add_results("pairs", res, props={"C06", "C01"}, nontrivial=nontrivial_pair)
     trace_engine(rep, [rng.choice(U2[2:]), rng.choice(U3)] if quick else U2[2:] + U3, ["poly-int", "quad-float"] if quick else POLY + CURVED[:2],
                  ntr=12 if quick else 60, nsteps=10, acts_for_prop={"Bin", "Inv", "MakeAtom", "MakeRegion"}, gens=(), maxframe=0, seed_offset=600)
     return rep.finish(tier, rule="one-step operator behaviours on T-class pairs plus the singleton-law rows (S|~S, S&~S, S-S, S^S, S^~S for every pinch-free S): kind, number of curves, corner cycles, vertex cycles (segmentation), junction identity, zero-length pieces, singleton identity", exhaustive=not quick)
@@ -384,6 +406,15 @@ def check_C09(tier, rng, rep):
     rep.add_results("sim", res)
     trace_engine(rep, [rng.choice(U2), rng.choice(U3)] if quick else U2 + U3, ["poly-frac", "poly-float"] if quick else POLY + CURVED[:2],
                  ntr=12 if quick else 60, nsteps=10, acts_for_prop={"Transform", "InvertInPlace"}, gens=GEN_ALL, maxframe=3, seed_offset=900)
+    # hand-made curved shapes, control-point level (incl. a control point coinciding with a vertex)
+    from . import queries
+    gj = []
+    words = [("m1",), ("s2",), ("r1",), ("m2", "S2"), ("s1", "m1", "S1"), ("r2", "m1"), ("m1", "M1"), ("s2", "S2"), ("r1", "R1"), ("f1", "r1", "F1")]
+    for nm in queries.GALLERY:
+        for nt in ("int", "frac", "float"):
+            for wd in (runner.sample(words, 5, rng) if quick else words):
+                gj.append((nm, nt, wd, {}))
+    rep.add_results("gallery", runner.pool_map(queries.gallery_case, gj))
     rep.assumptions.append("generators: move(3,-2), move(1/2,7), scale(2,2), scale(3,1/2), rotate(90 deg), rotate(atan2(3,4)) and inverses; exact comparison (and Fraction types) for move/scale on rational polygons, 1e-9 after rotations")
     return rep.finish(tier, rule="TLC -simulate behaviours with Transform/BadTransform actions (frame words of length <= 3 over 12 generators) on objects of every kind; after each step witnesses are mapped through the exact affine map of the frame word, moments by exact substitution; a word reducing to the empty word must give a shape == the original", exhaustive=False)
 
@@ -432,7 +463,10 @@ def check_C10(tier, rng, rep):
     for un, r in sims:
         rep.add_tlc("ShapeSys-sim/" + un, r)
     res = runner.pool_map(replay.run_case, jobs)
-    rep.add_results("sim", res)
+    # within a history every deviation from the model is a dependence on earlier calls: an object
+    # changed by a call on another one (C08), a stale measure after a transformation (C04/C09)
+    rep.add_results("sim", res, props={"C10", "C08", "C04", "C09"})
+    history_sims(rep, rng, quick, props=ALLP | {"C10"}, c10=True)
     # the same behaviours in fresh interpreters: other hash seeds, cold and pre-warmed
     # module-level memo tables; observation logs must be identical
     sub = runner.sample(list(range(len(jobs))), 24 if quick else 120, rng)
@@ -695,7 +729,10 @@ def check_C15(tier, rng, rep):
     for un, ns in targets:
         st = replay._tables(un)
         regs = [r for r in range(1, st.u.full) if not st.pinch(r) and st.nloops(r) == 1 and len(st.loops(r)[0]) == ns]
-        res, behs = models.splitclean_simulate(ns, num=(14 if quick else 80), depth=4, seed=runner.seed() + ns)
+        res, behs = models.splitclean_simulate(ns, num=(60 if quick else 300), depth=4, seed=runner.seed() + ns)
+        # fixed behaviours: several parameters on one segment and a later segment split in the same call
+        behs = [mk_sc_behaviour(ns, [[(1, (1, 3)), (1, (2, 3)), (3, (1, 2))], "clean"]),
+                mk_sc_behaviour(ns, [[(2, (1, 4)), (2, (1, 2)), (2, (3, 4)), (4, (1, 2)), (ns, (1, 3))], [(1, (1, 2))], "clean"])] + behs
         rep.add_tlc("SplitClean-sim/NS%d" % ns, res)
         for k, b in enumerate(behs):
             reg = regs[k % len(regs)]
